@@ -1285,6 +1285,58 @@ pub fn gen_case(r: &mut Prng, p: &Profile) -> Case {
     }
 }
 
+/// a case beyond the usual size bounds: 64 to 70 columns, rows that spread one 64-bit value over 64 of them with
+/// `bits(64, e)` (the columns are signals of every width), boundary values for `e`
+pub fn gen_wide_case(r: &mut Prng, p: &Profile) -> Case {
+    let n = 64 + r.below(7);
+    let mut sigs: Vec<SigSpec> = vec![];
+    for i in 0..n {
+        let is_in = r.chance(1, 2);
+        sigs.push(SigSpec {
+            name: format!("P{i}"),
+            bits: *r.pick(p.widths),
+            dir: if is_in { Dir::In } else { Dir::Out },
+            default: if is_in { Some(0) } else { None },
+        });
+    }
+    let header: Vec<String> = sigs.iter().map(|s| s.name.clone()).collect();
+    let mut stmts = vec![];
+    // literals are non-negative: values with bit 63 set are written as `~k`
+    let val = |v: i64| if v >= 0 { GExpr::Num(v) } else { GExpr::Un("bnot", Box::new(GExpr::Num(!v))) };
+    let vals = [i64::MIN, -1, i64::MIN | 1, i64::MAX, 1i64 << 62, 0x5555_5555_5555_5555, r.next_u64() as i64];
+    for _ in 0..(1 + r.below(3)) {
+        let v = *r.pick(&vals);
+        let mut row = vec![GEntry::Bits(64, val(v))];
+        for _ in 64..n {
+            row.push(GEntry::Num(r.below(4) as i64));
+        }
+        // the wide entry need not come first
+        if n > 64 && r.chance(1, 2) {
+            let last = row.pop().unwrap();
+            row.insert(0, last);
+        }
+        stmts.push(GStmt::Row(row));
+    }
+    let mut layout: Vec<SigSpec> = sigs.iter().filter(|s| s.is_output()).cloned().collect();
+    r.shuffle(&mut layout);
+    let style_seed = r.next_u64();
+    Case {
+        prog: Prog { header, stmts },
+        style_seed,
+        style: Style::random(&mut Prng::new(style_seed ^ 0xABCD)),
+        sigs,
+        layout,
+        own_wo: false,
+        drv_seed: r.next_u64(),
+        fault: None,
+        rng_seed: r.next_u64(),
+        p_zx: 0,
+        read_names: vec![],
+        cap: 400,
+        tags: vec!["wide"],
+    }
+}
+
 /// value the driver reports for `sig` (deterministic in the seed, the call index and the signal)
 pub fn driver_value(seed: u64, call: usize, sig: &SigSpec, keep_numeric: bool, p_zx: u32) -> Option<Result<i64, bool>> {
     // Ok(n) = number, Err(false) = Z, Err(true) = X
